@@ -9,6 +9,8 @@ CONSTANTS
   HalfMax = 1
   Callers = {"c1", "c2"}
   Outcomes = {"ok", "fail", "cancel"}
+  SplitAcquire = FALSE
+  Defects = {}
   MaxNow = 5
   MaxCount = 2
   Depth = 0
